@@ -13,9 +13,9 @@ Open Scope Z_scope.
 
 Definition define_fn := obj -> key -> desc -> bool -> obj * dres.
 (* otto's clamps / the ES5 clamps around one and the same [[DefineOwnProperty]] *)
-Definition with_otto_clamps (df : define_fn) (lc js : bool) : dialect := mkDia df otto_rel otto_cnt otto_indexof otto_lastindexof lc js.
-Definition with_es5_clamps (df : define_fn) (lc js : bool) : dialect :=
-  mkDia df (dia_rel es5) (dia_cnt es5) (dia_indexof es5) (dia_lastindexof es5) lc js.
+Definition with_otto_clamps (df : define_fn) : dialect := mkDia df otto_rel otto_cnt otto_indexof otto_lastindexof.
+Definition with_es5_clamps (df : define_fn) : dialect :=
+  mkDia df (dia_rel es5) (dia_cnt es5) (dia_indexof es5) (dia_lastindexof es5).
 
 Lemma bind_ext : forall A B (m : M A) (f g : A -> M B),
   (forall a s, f a s = g a s) -> forall s, bind m f s = bind m g s.
@@ -52,9 +52,8 @@ Qed.
 
 Section Clamps.
 Variable df : define_fn.
-Variables lc js : bool.
-Let D1 := with_otto_clamps df lc js.
-Let D2 := with_es5_clamps df lc js.
+Let D1 := with_otto_clamps df.
+Let D2 := with_es5_clamps df.
 
 Theorem slice_clamps : forall args s, m_slice D1 args s = m_slice D2 args s.
 Proof.
@@ -94,8 +93,7 @@ Theorem lastindexof_clamps : forall args s, m_lastindexof D1 args s = m_lastinde
 Proof.
   intros args s. unfold m_lastindexof. change (m_len D2) with (m_len D1). apply m_len_ext. intros len Hlen s1.
   apply bind_ext. intros x s2.
-  cbn [dia_lio_conv_first D1 D2 with_otto_clamps with_es5_clamps].
-  destruct ((len =? 0) && negb lc); [reflexivity |].
+  destruct (len =? 0); [reflexivity |].
   destruct (nth_arg args 1) as [a | ]; [ | reflexivity].
   cbn [dia_lastindexof D1 D2 with_otto_clamps with_es5_clamps].
   match goal with |- bind (bind ?m ?h) ?f _ = bind (bind ?m ?h') ?f' _ =>
